@@ -413,12 +413,27 @@ def concretize_type(t, reg: Registry):
         reg.pending_fwd.append(t[2])
         return t[1]
     if tag == "discr":
-        from mashumaro.types import Discriminator
         base = concretize_type(t[1], reg)
-        d = {o[0]: o[1] for o in t[2]}
-        return typing.Annotated[base, Discriminator(field=d.get("field"), include_subtypes=bool(d.get("include_subtypes", False)),
-                                                    include_supertypes=bool(d.get("include_supertypes", False)))]
+        return typing.Annotated[base, make_discriminator(t[2], reg)]
     raise BridgeError(f"unsupported type term {t!r}")
+
+
+def make_discriminator(opts, reg):
+    """a Discriminator object from its option list; <<"shared", key>> means ONE object per universe and key -- a project-wide
+    constant used at several positions (a Config.discriminator here, an Annotated position there)"""
+    from mashumaro.types import Discriminator
+    d = {o[0]: o[1] for o in opts}
+    key = d.get("shared")
+    if key is not None:
+        if not hasattr(reg, "shared_discr"):
+            reg.shared_discr = {}
+        if key in reg.shared_discr:
+            return reg.shared_discr[key]
+    obj = Discriminator(field=d.get("field"), include_subtypes=bool(d.get("include_subtypes", False)),
+                        include_supertypes=bool(d.get("include_supertypes", False)))
+    if key is not None:
+        reg.shared_discr[key] = obj
+    return obj
 
 
 # --------------------------------------------------------------------------- values
